@@ -156,7 +156,7 @@ class World(StackWorld):
         ch = self.run.ch
         cfg = self.cfg
         kind = cfg["kind"] = ch.pick(("ws", "rs"), "kind")
-        ser = cfg["ser"] = ch.pick(SER_NAMES, "ser")
+        ser = cfg["ser"] = ch.pick(SER_NAMES + ("json-hex",), "ser")
         cfg["batched"] = ch.flag("batched", 0.2) if kind == "ws" else False
         cs = self.new_session("C")
         ss = self.new_session("S")
@@ -210,7 +210,7 @@ class World(StackWorld):
             elif ch.flag("padded", 0.3):
                 pad = ch.pick((10, 200, 3000, 70000), "pad", (3, 3, 2, 1))
             blob = "p" * pad
-            args = ch.pick(([], [1], ["x", {"a": [1, 2, None]}], [blob]), "args") if not pad else [blob]
+            args = ch.pick(([], [1], ["x", {"a": [1, 2, None]}], [blob], [b"\x00\x01\xfe\xff", "t"]), "args") if not pad else [blob]
             kwargs = ch.pick((None, {"k": "v"}, {"n": {"m": [True, 1.5]}}), "kwargs")
             if kwargs and not args:
                 args = ["a0"]  # (keyword arguments on the wire require the positional list to be present)
